@@ -13,13 +13,13 @@ func init() {
 	registerProperty(&PropertyInfo{
 		ID:    "C11",
 		Title: "No needed file is ever removed; handles and the lock are released",
-		Rules: []string{"C11.R1", "C11.R2", "C02.R2", "C11.R4", "C11.R5", "C11.R6", "C11.R7", "C11.R8", "C11.R9", "C13.R3"},
+		Rules: []string{"C11.R1", "C11.R2", "C02.R2", "C11.R4", "C11.R5", "C11.R6", "C11.R7", "C11.R8", "C11.R9", "C02.R7", "C13.R3"},
 		Decides: "who may remove and under which guard, and acquire/release pairing on all paths: Directory.Remove is called only by the deletion policy's clean-up and by the offline merge behind the successful persist of the merged segment; Commit/Cleanup of the deletion policy are invoked only in the persister goroutine or in OpenWriter before any goroutine starts; in the segment clean-up a Remove is unreachable from a membership hit in any live epoch's segment set without starting the next candidate, candidates enter knownSegmentFiles only in Commit, an id/epoch is forgotten only on the success edge of its Remove, epochs become deletable only behind len(liveEpochs) > n; commit follows the durable snapshot (C02.R2); every closer obtained from Directory.Load and every wrapper obtained from a loading function is closed, returned, or stored into a holder that is itself returned or closed on every path; every snapshot reference obtained inside package index is closed on every path; OpenWriter touches the directory's contents only behind a successful Lock, never unlocks after a failed Lock, and closes (unlocks) on every later error path; Close reaches Unlock on every path; the unix remove unlinks only behind a successful exclusive open. the sender of a merge releases the merged segment when its introduction was skipped; a name is removed (unlink/rename) only in package index on a path where the function holds the file's exclusive lock, or for the writer's own lock file. close drops the root on every path and unlocks only after waiting on that path; load hooks close the locked file when they fail; every writer gets a deletion policy of its own.",
 		NotCovered: "the directory contents over time (which files exist at which instant); flock semantics; Windows sharing semantics beyond the same pairing rules in the thorough tier.",
 	})
 	registerRule(&RuleInfo{ID: "C11.R1", Title: "who may remove items and drive the deletion policy", Floor: 6, Run: ruleC11R1,
 		Covers: "every call site of Directory.Remove, DeletionPolicy.Commit and DeletionPolicy.Cleanup"})
-	registerRule(&RuleInfo{ID: "C11.R2", Title: "a segment file is removed only if no live epoch lists it; bookkeeping only on success", Floor: 5, Run: ruleC11R2,
+	registerRule(&RuleInfo{ID: "C11.R2", Title: "a segment file is removed only if no live epoch lists it; bookkeeping only on success", Floor: 3, Run: ruleC11R2,
 		Covers: "CFG shape of the clean-up functions of every DeletionPolicy implementation"})
 	registerRule(&RuleInfo{ID: "C11.R4", Title: "closers, loaded wrappers and snapshot references are released on every path", Floor: 12, Run: ruleC11R4,
 		Covers: "path-sensitive acquire/release typestate with ownership transfer (return, holder, deferred clean-up)"})
